@@ -19,6 +19,29 @@ NOTE = ('Trusted: CrossHair byte-code interpreter and its str/int/list/dict/re m
 
 # id -> (level text, design ref)
 CLAIMED = {
+    'C05': ('Matchers and transformers obtained from the real parsers on concrete syntax (full sdv->ddv->adv->primitive chain) applied to '
+            "exactly_lib's in-memory text source holding a SYMBOLIC string (|s| <= 4..5 over {a,b,A,space,tab,newline,.}), integer operands "
+            'in Z, line-matcher verdicts symbolic per line, replacement results uninterpreted; compared with an independent interpreter of '
+            'the manual (is-empty, equals, matches [-full], num-lines, every/any line, -transformed-by, replace [-at] [-preserve-new-lines], '
+            'strip variants, char-case, filter, grep, identity, | composition).', '4/C05'),
+    'C06': ('Expression grammar of all six host types: the catalogue of expression texts (generated trees with every layout; all token '
+            'strings up to a length bound) is enumerated by the harness on concrete text against a reference recogniser; one representative '
+            'of every distinct parse structure is then evaluated under CrossHair with SYMBOLIC leaf verdicts / integer operands and compared '
+            '(value and asking order) with the generating tree. Shapes and layouts are concrete cases, leaf values are what the solver decides.',
+            '4/C06'),
+    'C09': ('The real TokenStream/shlex (pure-Python StringIO stub) on a fully SYMBOLIC source (all strings up to length 3-5 over an 8-character '
+            'alphabet) against an independent reader of the documented string syntax; reference splitting, fragment parsing, denotation '
+            'with symbolic symbol values, here-documents, lists and text-until-end-of-line on masked texts with symbolic holes.', '4/C09'),
+    'C10': ('Command -> OS call with symbolic program / argument strings, timeout, exit code; test-case text -> denotation through the real '
+            'parser, def/stdin instructions, actors, program-symbol chains (depth <= 3/4) with symbolic symbol values; whole program with a '
+            'recording stub at the single subprocess site; exit-code verdicts for all codes.', '4/C10'),
+    'C15': ('Real `exists PATH : FILE-MATCHER` and `dir` instructions on real directory fixtures: recursive walk with symbolic depth limits '
+            'and symbolic per-file verdicts of selection/prune matchers vs the documented set; files-matchers with symbolic integer operands; '
+            'FILE-LIST population (selector catalogue of specs x initial trees) vs a fold over an in-memory tree; file-name rules on a '
+            'symbolic name.', '4/C15'),
+    'C16': ('Real suite execution machinery (SuitesExecutor, DepthFirstEnumerator, both reporters, MainProgram suite command) on generated '
+            'hierarchies and outcome assignments from the full set of 14 outcomes; selector-level, exhaustive over the stated catalogues; '
+            'glob match order symbolic.', '4/C16'),
     'C03': ('Stub-level: a defect of every kind at every pre-sandbox step leaves no main/post-setup/act step executed and no sandbox; '
             'the accessor stages never reach the executor on failure; and the real MainProgram.execute on generated test cases with '
             'one defective instruction out of a catalogue of 26+5 defects at every phase/position starts no process and creates no '
